@@ -69,9 +69,18 @@ func validLenC20(fixed bool, elemSize, n int) bool {
 // hash = T[key[0]&3] (T[0] for the empty key) with four symbolic bucket values: all collision patterns
 // between the four key classes, including the constant hash.
 func runC20(capacity, es int, fixed bool, n, minLen int, script [][2]int) {
+	runHashC20(capacity, es, fixed, n, minLen, script, false)
+}
+
+// runHashC20: degenerate == true makes the hash function constant (one symbolic value for every key).
+func runHashC20(capacity, es int, fixed bool, n, minLen int, script [][2]int, degenerate bool) {
 	var tab [4]byte
 	for i := 0; i < 4; i++ {
-		tab[i] = vrt.Byte("hash")
+		if degenerate && i > 0 {
+			tab[i] = tab[0]
+		} else {
+			tab[i] = vrt.Byte("hash")
+		}
 	}
 	hashf := func(key []byte) uint64 {
 		if len(key) == 0 {
@@ -161,4 +170,28 @@ func VerifC20_chain() {
 	}
 	script = append(script, [2]int{kRemoveC20, es}, [2]int{kAddC20, es})
 	runC20(capacity, es, fixed, len(script), es, script)
+}
+
+// shapes of VerifC20_degenerate (A = Add, R = Remove): fill the chain then remove twice (a freed node still
+// holds a removed key when a second, interior removal happens); remove from a two-member chain with a
+// never-used node on the free list, then add twice (freed and never-used nodes are reused).
+var shapesC20 = [][]int{
+	{kAddC20, kAddC20, kAddC20, kRemoveC20, kRemoveC20},
+	{kAddC20, kAddC20, kRemoveC20, kAddC20, kAddC20},
+}
+
+// VerifC20_degenerate: the degenerate (constant, symbolic value) hash function: every key lives in one
+// collision chain of up to 3 members. One of the first SHAPES histories of shapesC20 with valid symbolic keys
+// on capacity CAP, then an arbitrary probe: removal of head / interior / tail chain members followed by
+// further operations that walk the chain and reuse freed nodes.
+func VerifC20_degenerate() {
+	capacity := vrt.Param("CAP", 3)
+	es := vrt.Param("ES", 2)
+	fixed := vrt.Choose("fixed", 2) == 1
+	shape := shapesC20[vrt.Choose("shape", vrt.Param("SHAPES", len(shapesC20)))]
+	script := make([][2]int, len(shape))
+	for i := range shape {
+		script[i] = [2]int{shape[i], es}
+	}
+	runHashC20(capacity, es, fixed, len(script), es, script, true)
 }
